@@ -382,6 +382,54 @@ async fn faulty_subscriber(ctx: &mut Ctx, ty: &str, nsubs: usize, seed: u64, cas
     }
 }
 
+/// The last publish is larger than what the connection takes at once (a kernel socket
+/// buffer), the subscriber keeps reading, and nothing is published afterwards: at
+/// quiescence the matching message has been delivered in full.
+async fn large_last_publish(ctx: &mut Ctx, ty: &str, size: usize, window: usize, case: &Value) {
+    let mut sock = Sock::new(ty, None);
+    let Ok(sub) = Peer::attach(&sock, "SUB", Some(b"reader")).await else {
+        ctx.inconclusive("C11 attach".into());
+        return;
+    };
+    sub.send(&[vec![1u8]]);
+    let mut sink = Vec::new();
+    quiesce(ctx, &mut sock, &mut sink).await;
+    // the connection takes `window` bytes, then says "not now" until the reader has read
+    sub.conn.set_credit(Some(window));
+    let mut msg: Frames = vec![b"big".to_vec()];
+    msg.extend(rc::tagged(13, 0, &[size]));
+    let want = rc::message(&msg);
+    let start = sub.conn.tap_len();
+    if !matches!(sim::complete(sock.send(&msg)).await, Ok(Ok(()))) {
+        ctx.violation_with(&format!("C11/publish-failed/{ty}"), "publish of a large message".into(), case.clone());
+        return;
+    }
+    // the subscriber reads: whenever the window is used up, it is opened again
+    for _ in 0..(size / window.max(1) + 50) {
+        sim::settle().await;
+        sub.conn.set_credit(Some(window));
+        if sub.conn.tap_len() - start >= want.len() {
+            break;
+        }
+    }
+    sub.conn.set_credit(None);
+    quiesce(ctx, &mut sock, &mut sink).await;
+    ctx.count("large_last_publishes");
+    let got = sub.conn.tap_len() - start;
+    if got < want.len() {
+        ctx.violation_with(
+            &format!("C11/matching-message-not-delivered-until-the-next-publish/{ty}"),
+            format!(
+                "one matching message of {} bytes was published to a subscriber whose connection takes {window} bytes at a time and that keeps reading; nothing was published afterwards: at quiescence {got} bytes are on the wire, the rest waits in the subscriber's write buffer for the next publish",
+                want.len()
+            ),
+            case.clone(),
+        );
+    } else if sub.conn.tap_from(start) != want {
+        ctx.violation_with(&format!("C11/delivered-message-altered/{ty}"), "large message altered".into(), case.clone());
+    }
+}
+
 /// A subscriber comes back on a new connection under the identity it used before (the old
 /// connection still open, or closed but not yet noticed): subscriptions are counted per
 /// connection, so the new one starts with none.
@@ -497,6 +545,9 @@ impl Prop for C11 {
             for old in ["open", "closed-unnoticed", "closed-noticed"] {
                 v.push(json!({"kind": "resub", "ty": ty, "old": old}));
             }
+            for (size, window) in [(300_000usize, 65_536usize), (1_000_000, 212_992), (100_000, 8_192)] {
+                v.push(json!({"kind": "large_last", "ty": ty, "size": size, "window": window}));
+            }
             for n in 1..=5usize {
                 for k in 0..tier.pick(120, 3000) {
                     v.push(json!({"kind": "random", "ty": ty, "subs": n, "len": 30, "seed": mix(seed ^ (k as u64) << 3 ^ n as u64)}));
@@ -545,6 +596,11 @@ impl Prop for C11 {
                 ctx.sample("faulty_subscriber", || case.clone());
                 sim::run(faulty_subscriber(ctx, &ty, u(case, "subs") as usize, u(case, "seed"), case));
             }
+            "large_last" => {
+                ctx.eval(hash_str(&case.to_string()), true);
+                ctx.sample("large_last", || case.clone());
+                sim::run(large_last_publish(ctx, &ty, u(case, "size") as usize, u(case, "window") as usize, case));
+            }
             "resub" => {
                 ctx.eval(hash_str(&case.to_string()), true);
                 ctx.sample("resubscriber", || case.clone());
@@ -566,6 +622,7 @@ impl Prop for C11 {
         vec![
             ("exhaustive_histories", 2 * 7239),
             ("random_histories", 400),
+            ("large_last_publishes", 6),
             ("histories_with_empty_identity_subscribers", 50),
             ("delivery_decisions_beside_a_failing_subscriber", 2000),
             ("publishes_beside_a_failing_subscriber/ConnectionReset", 200),
